@@ -70,11 +70,14 @@ PROPS["C16"] = dict(
 PROPS["C15"] = dict(
     level="model_checking", leak_every=200, exhaustive=True,
     stages=lambda tier, seed: [
-        mc("graph_clm", "MC_C15", "MC_C15_graph_clm.cfg"),
-        mc("graph_hdr", "MC_C15", "MC_C15_graph_hdr.cfg"),
+        # one worker: with a VIEW and a depth bound, which representative of a view class is expanded first decides
+        # what lies within the bound - parallel BFS made the set of emitted transitions vary by a fraction of a percent
+        mc("graph_clm", "MC_C15", "MC_C15_graph_clm.cfg", workers=1),
+        mc("graph_hdr", "MC_C15", "MC_C15_graph_hdr.cfg", workers=1),
         mc("seq", "MC_C15", "MC_C15_seq_%s.cfg" % tier),
-        mc("cbsites", "MC_C15", "MC_C15_graph_clm.cfg", expand=G.c15_to_callbacks),
+        mc("cbsites", "MC_C15", "MC_C15_graph_clm.cfg", expand=G.c15_to_callbacks, workers=1),
         gen("walk", G.c15_walks(60 if tier == "quick" else 1500, 200)),
+        gen("alias", G.c15_alias()),
     ],
     rule=
          "(graph) every reachable state of the map over names {a,b,c,r,n,o,l} x every operation of a 108-operation "
@@ -86,8 +89,10 @@ PROPS["C15"] = dict(
          "20-operation alphabet (incl. the empty string and non-UTF-8 strings as values); every request's jwt_value_t "
          "carries a stale error code and the previous request's bits in its value union (only the member of the "
          "request's type is written, as the public macros do); (walk) seeded random walks of 200 operations with 64-bit "
-         "extremes. After every operation the whole header and claim objects are read back and compared with the model. "
-         "distinct = distinct script hashes.",
+         "extremes; (alias) a member of every type stored on the builder, the same name replaced / deleted / deleted-all"
+         " on the token by the callback or stamped by the library (iat, nbf, exp), two generates, builder read back: the"
+         " builder's maps hold what was stored on the builder. After every operation the whole header and claim objects "
+         "are read back and compared with the model. distinct = distinct script hashes.",
     assumptions=ASSUME_COMMON,
     level_text="TLC explores the complete state graph of the typed-map specification (78 states, every operation "
                "from every state) and checks the map laws on it; each transition is replayed into libjwt at four "
@@ -109,8 +114,10 @@ PROPS["C02"] = dict(
          "letters) x signature class {empty, garbage, valid under the configured key, genuine under the checker's own "
          "algorithm whatever the header says, genuine under the algorithm the key is made for (an ECDSA signature "
          "labelled EdDSA), HMAC under the empty key, HMAC under the public PEM, valid under another key} x route "
-         "{setkey, callback sets key+alg, key only, alg only}; (C) builder configurations x routes -> generate. quick "
-         "uses one key per family and 9 of 16 configured algs, thorough all. distinct = distinct cells (script hashes).",
+         "{setkey, callback sets key+alg, key only, alg only}; (C) builder configurations x routes -> generate; (D) "
+         "history: an EC key first used, successfully, under the algorithm it is made for, then pinned to every other "
+         "ES* algorithm (checker and builder). quick uses one key per family and 9 of 16 configured algs, thorough all. "
+         "distinct = distinct cells (script hashes).",
     assumptions=ASSUME_COMMON,
     level_text="The space is finite and TLC enumerates it completely within the chosen key set; the reference "
                "outcome is shown to satisfy C02 on every cell, and every cell is executed against libjwt and judged "
@@ -157,11 +164,13 @@ PROPS["C01"] = dict(
          "swapped segments / other text / the decoded JSON, by another key, by the same key under a sibling algorithm, "
          "ES: r and s zero-extended to wider widths, DER; HS: HMAC under empty and all-zero keys and, for public keys, "
          "under the PEM text; a genuine MAC that begins with / contains a zero octet offered with every later octet "
-         "changed} + header/payload altered after signing; each cell concretised 3 (quick) / 300 (thorough) times with "
-         "seed-drawn positions. Signatures are made by the driver's own signer. Stage 'rotation': a checker holds public"
-         " key A and accepts A's token; A's keyring is freed, key B loaded and given to the checker: A's token must be "
-         "refused and B's accepted, seven key pairs x both providers x 2..3 (quick) / up to 11 (thorough) rotations, run"
-         " with a zero ASan quarantine so that freed addresses are reused at once. distinct = distinct cells x reps.",
+         "changed} + header/payload altered after signing + the genuine signature as LAST segment behind extra ones "
+         "(h.p.AAAA.s, h.p..s, h.p.x.y.s, h.p.s.s, h.p.s.AAAA, h.p.s.) + header re-targeted to alg none; each cell "
+         "concretised 3 (quick) / 300 (thorough) times with seed-drawn positions. Signatures are made by the driver's "
+         "own signer. Stage 'rotation': a checker holds public key A and accepts A's token; A's keyring is freed, key B "
+         "loaded and given to the checker: A's token must be refused and B's accepted, seven key pairs x both providers "
+         "x 2..3 (quick) / up to 11 (thorough) rotations, run with a zero ASan quarantine so that freed addresses are "
+         "reused at once. distinct = distinct cells x reps.",
     assumptions=ASSUME_COMMON + ["cryptography is treated as perfect: a mutated valid signature is assumed invalid (by construction, not by TLC)"],
     level_text="Exhaustive over the abstract cells (key class x algorithm x provider x signature/alteration class); "
                "within a cell bytes are sampled. Accepting any cell whose class is not 'valid signature by the "
@@ -176,12 +185,13 @@ PROPS["C09"] = dict(
     stages=lambda tier, seed: [mc("matrix", "MC_C09", "MC_C09_%s.cfg" % tier)],
     rule=
          "matrix from MC_C09: oct keys of length {0,1,16,31,32,33,47,48,49,63,64,65,100,160} (quick) / every length "
-         "0..160 (thorough) x HS256/384/512; RSA moduli of 512, 1024, 2040, 2047, 2048, 2056, 3072, 4096 bits x RS/PS "
-         "algorithms; P-256/384/521 and secp256k1 x every ES algorithm; Ed25519 and Ed448; algorithm x key of another "
-         "kind altogether (EdDSA/ES256/RS256/HS256 with EC, RSA, OKP and oct keys, token signed genuinely under the "
-         "key's own algorithm); each through generate (private key), verify of the generated token and verify of a token"
-         " signed by the driver's own signer (public key), on OpenSSL and GnuTLS. Both directions are judged: below the "
-         "floor never succeeds, at or above it works. distinct = distinct cells.",
+         "0..160 (thorough) x HS256/384/512 (keys without alg attribute, and keys of 1..100 bytes whose JWK names the "
+         "algorithm); RSA moduli of 512, 1024, 2040, 2047, 2048, 2056, 3072, 4096 bits x RS/PS algorithms; P-256/384/521"
+         " and secp256k1 x every ES algorithm; Ed25519 and Ed448; algorithm x key of another kind altogether "
+         "(EdDSA/ES256/RS256/HS256 with EC, RSA, OKP and oct keys, token signed genuinely under the key's own "
+         "algorithm); each through generate (private key), verify of the generated token and verify of a token signed by"
+         " the driver's own signer (public key), on OpenSSL and GnuTLS. Both directions are judged: below the floor "
+         "never succeeds, at or above it works. distinct = distinct cells.",
     assumptions=ASSUME_COMMON,
     level_text="The matrix is finite and enumerated completely (every oct length in thorough); TLC shows the reference "
                "outcome satisfies C09 on every cell and every cell is executed against libjwt.",
@@ -245,12 +255,13 @@ PROPS["C04"] = dict(
 PROPS["C19"] = dict(
     level="model_checking", exhaustive=True,
     stages=lambda tier, seed: [mc("progs", "MC_C19", "MC_C19_%s.cfg" % tier), gen("apiwalk", G.api_walks(300 if tier == "quick" else 20000, 60), dopts=TRACK)],
-    rule="from MC_C19: all callback programs of up to 2 (quick) / 3 (thorough) steps over 16 header/claim steps "
-         "(delete exp/nbf/iss/aud, delete all claims, delete all headers, delete/replace header alg, replace exp/nbf "
-         "with passing or failing values, set/replace iss, add aud), plus control steps (return 1, select key and/or "
-         "alg, clear key) alone and combined with one edit; x 4 claim-check configurations x 10 tokens (passing and "
-         "failing each check, bad signature, unsigned, other key); every verify is repeated on an identically "
-         "configured checker without the callback and both verdicts are logged. distinct = distinct scripts.",
+    rule=
+         "from MC_C19: all callback programs of up to 2 (quick) / 3 (thorough) steps over 16 header/claim steps (delete "
+         "exp/nbf/iss/aud, delete all claims, delete all headers, delete/replace header alg, replace exp/nbf with "
+         "passing or failing values, set/replace iss, add aud), plus control steps (return 1, -1, 256, INT_MIN+1, select key and/or alg, "
+         "clear key) alone and combined with one edit; x 4 claim-check configurations x 10 tokens (passing and failing "
+         "each check, bad signature, unsigned, other key); every verify is repeated on an identically configured checker"
+         " without the callback and both verdicts are logged. distinct = distinct scripts.",
     assumptions=ASSUME_COMMON,
     level_text="Programs are enumerated exhaustively up to the bound by TLC; on the specification the verdict is a "
                "function of the parsed token and the configuration after the callback, never of the callback's edits; "
@@ -293,12 +304,13 @@ PROPS["C10"] = dict(
     rule=
          "from MC_C10: all sequences of 3 builder configuration calls over an alphabet of 19 (quick) / 35 (thorough) "
          "calls - header set (typ as string and as integer, user-set alg as string and as boolean, kid) and delete, "
-         "claim set (same-named iat/exp/nbf, sub, bool) and delete, enable_iat 0/1, time_offset for exp/nbf in {-5, 0, "
-         "1, 60, 3600, 2^31, 2^32+5, a century} and for an invalid claim, setkey (HS256 oct, RS256 private, RS256 "
-         "public-only, ES256, none, remove), setcb with two mutating programs and removal, clock changes - with a "
-         "generate after every call, plus all pairs over the full alphabet. Every token is decoded by the driver "
-         "(segments, canonical base64url, header and payload objects, signature checked against every loaded key) and "
-         "the builder's header and claim objects are read back after each generate. distinct = distinct sequences.",
+         "claim set (same-named iat/exp/nbf, sub, bool; JSON reals that need 17 significant digits - the driver projects"
+         " reals with %.17g) and delete, enable_iat 0/1, time_offset for exp/nbf in {-5, 0, 1, 60, 3600, 2^31, 2^32+5, a"
+         " century} and for an invalid claim, setkey (HS256 oct, RS256 private, RS256 public-only, ES256, none, remove),"
+         " setcb with two mutating programs and removal, clock changes - with a generate after every call, plus all "
+         "pairs over the full alphabet. Every token is decoded by the driver (segments, canonical base64url, header and "
+         "payload objects, signature checked against every loaded key) and the builder's header and claim objects are "
+         "read back after each generate. distinct = distinct sequences.",
     assumptions=ASSUME_COMMON,
     level_text="Bounded-exhaustive over builder configuration histories: TLC computes what each generate must return "
                "(header with alg forced and typ defaulted, claims with iat/nbf/exp overriding, callback edits visible "
@@ -319,11 +331,12 @@ PROPS["C05"] = dict(
          "from MC_C05: (key, algorithm) pairs of every supported type x (signing provider, verifying provider) in "
          "{openssl, gnutls}^2 x header tree class x claim tree class {flat, nested depth 6, unicode (+ empty, 63-bit "
          "integers, strings to 64 KiB in thorough)} x time configuration {default, exp+nbf offsets with clock advance, "
-         "iat off, expiry a century / 2^31+1000 s ahead, exp claims of year 9999 and LONG_MAX}; plus JSON text with the "
-         "escape \\u0000 inside strings given to the builder's header and claims (taken or refused, what is generated "
-         "must verify); generate, then verify on a checker holding the public form with a callback that reads header and"
-         " claims. JSON trees are seeded random per case; what the builder was given, what the token carries and what "
-         "the callback read are digested by one canonicaliser (sorted, compact) after removing alg/typ/iat/nbf/exp, "
+         "iat off, expiry a century / 2^31+1000 s ahead, exp claims of year 9999 and LONG_MAX}; plus an application-set "
+         "typ / kid / crit header of every JSON type (integer, boolean, empty string, object, array) and JSON text with "
+         "the escape \\u0000 inside strings given to the builder's header and claims (taken or refused, what is generated"
+         " must verify); generate, then verify on a checker holding the public form with a callback that reads header "
+         "and claims. JSON trees are seeded random per case; what the builder was given, what the token carries and what"
+         " the callback read are digested by one canonicaliser (sorted, compact) after removing alg/typ/iat/nbf/exp, "
          "which are compared member by member. Stage 'ecdsa': 500 (quick) / 20000 (thorough) generate+verify pairs per "
          "curve and signing provider; coverage.short_rs counts signatures whose r or s has a leading zero byte. distinct"
          " = distinct scripts.",
@@ -388,15 +401,15 @@ PROPS["C06"] = dict(
          "(classes) from MC_C06: every shape (NULL, empty, 0/1/2/3/4 dots, leading dot) x header class (object, "
          "whitespace, not JSON, array, scalar, string, null, not base64, length 1 mod 4, empty, {}, duplicate keys) x "
          "payload class x 20 alg spellings (incl. missing, each non-string JSON type, printf conversions, family prefix,"
-         " one more character, a NUL character inside) x signature class, one dimension at a time plus header x payload "
-         "pairs, plus checkers expecting iss / sub / aud x that claim as every JSON type (string, empty string, integer,"
-         " boolean, null, real, array, object, string with NUL), against key-less, HS256, RS256, ES256 and EdDSA "
-         "checkers on both providers: the class is known by construction, so rejection is judged; (fuzz) seeded byte-"
-         "level mutations (set/delete/insert of structural and high-bit bytes, truncation, duplication, padding to 64 "
-         "KiB) of tokens the library generated itself, and random byte strings of 0..64 KiB, 250 per case, under the "
-         "same eight configurations: these constrain only 'the call returns, no sanitizer report, no leak'. Recorded "
-         "under ASan+UBSan, LeakSanitizer check every 20 cases and at exit, 60 s watchdog per call. distinct = distinct "
-         "scripts (fuzz cases differ in every token).",
+         " one more character, a NUL character inside, names of 240 / 248 / 300 / 1500 / 70000 characters) x signature "
+         "class, one dimension at a time plus header x payload pairs, plus checkers expecting iss / sub / aud x that "
+         "claim as every JSON type (string, empty string, integer, boolean, null, real, array, object, string with NUL),"
+         " against key-less, HS256, RS256, ES256 and EdDSA checkers on both providers: the class is known by "
+         "construction, so rejection is judged; (fuzz) seeded byte-level mutations (set/delete/insert of structural and "
+         "high-bit bytes, truncation, duplication, padding to 64 KiB) of tokens the library generated itself, and random"
+         " byte strings of 0..64 KiB, 250 per case, under the same eight configurations: these constrain only 'the call "
+         "returns, no sanitizer report, no leak'. Recorded under ASan+UBSan, LeakSanitizer check every 20 cases and at "
+         "exit, 60 s watchdog per call. distinct = distinct scripts (fuzz cases differ in every token).",
     assumptions=ASSUME_COMMON + ["byte-level inputs are generated without coverage feedback; this is weaker than a coverage-guided fuzzer"],
     level_text="Exploration: the structural classes of the specification's Parse function are enumerated completely "
                "and judged (non-zero for every malformed class); memory safety, termination and leak freedom are "
@@ -475,18 +488,22 @@ PROPS["C11"] = dict(
         gen("random", G.c11_random(40 if tier == "quick" else 600, 40)),
         gen("users", G.c11_users(100 if tier == "quick" else 1500)),
     ],
-    rule="On the specification (MC_C11): Dec(Enc(b)) = b, unpadded URL-safe output of the RFC length, rejection of "
+    rule=
+         "On the specification (MC_C11): Dec(Enc(b)) = b, unpadded URL-safe output of the RFC length, rejection of "
          "foreign bytes ahead of '=' and of lengths 1 mod 4, canonical decoding - for all byte strings of length 1..2 "
          "and all 3-byte strings over a byte set (12 values quick / all 256 for lengths 1..2 and 34 for length 3 "
-         "thorough) and all texts of length 1..3(4) over a 24-character class alphabet and 1..5 over an 8-character "
-         "one. Against the implementation (CodecBatch; inputs regenerated and counted in TLC): encode of every byte "
-         "string of length 0, 1, 2, of every 3-byte block with first byte in {0, 77, 251, 255} (quick) / every first "
-         "byte = all 16.8 M blocks (thorough), 4-byte strings with 6 prefixes; decode of every text of length 0..4 "
-         "over a 32-character alphabet (alphabet edges, both alphabets, '=', foreign bytes, high-bit bytes incl. the "
-         "high-bit twins of alphabet characters), lengths 5..8 over 8 characters, length 4 over 40 characters "
-         "(thorough), and valid texts of length 2, 3, 4, 6, 7, 8 with ONE position ranging over all 255 byte values. Plus seeded random strings up to 64 KiB "
-         "(valid, one foreign byte, length 1 mod 4, standard alphabet, padded) in exact-size heap buffers under ASan. "
-         "distinct = distinct batch descriptors / random cases.",
+         "thorough) and all texts of length 1..3(4) over a 24-character class alphabet and 1..5 over an 8-character one."
+         " Against the implementation (CodecBatch; inputs regenerated and counted in TLC): encode of every byte string "
+         "of length 0, 1, 2, of every 3-byte block with first byte in {0, 77, 251, 255} (quick) / every first byte = all"
+         " 16.8 M blocks (thorough), 4-byte strings with 6 prefixes; decode of every text of length 0..4 over a "
+         "32-character alphabet (alphabet edges, both alphabets, '=', foreign bytes, high-bit bytes incl. the high-bit "
+         "twins of alphabet characters), lengths 5..8 over 8 characters, length 4 over 40 characters (thorough), and "
+         "valid texts of length 2, 3, 4, 6, 7, 8 with ONE position ranging over all 255 byte values. Plus seeded random "
+         "strings up to 64 KiB (valid, one foreign byte, length 1 mod 4, standard alphabet, padded) in exact-size heap "
+         "buffers under ASan. Stage 'users': the codec through its callers - token segments of every JSON length "
+         "(unsigned and HS256), oct keys of every length, and JWK member texts that are not base64url although a prefix "
+         "is (an escaped NUL, then anything), through every entry point: no key may come out. distinct = distinct batch "
+         "descriptors / random cases.",
     assumptions=ASSUME_COMMON + ["jwt_base64uri_encode/_decode are called directly (internal symbols of the static library)"],
     level_text="The codec is transcribed into TLA+ (Base64.tla); TLC proves the inverse and rejection laws on the "
                "transcription over the bounded domains and checks every recorded (input, output) pair of the real "
